@@ -33,14 +33,13 @@ Mutable state of the real code and where it lives here:
     → `St.heap` (append-only; an object is never modified after creation, the token slot is the
     only mutable part)
 
-GHOST data (never influences a result, only the trigger flags): `ICtx.lex`/`ICtx.litem` and
+GHOST data (never influences a result, only the trigger flags): `ICtx.lex` and
 `FObj.lex` carry the *lexical* bindings/focus, i.e. what the specification would see at the same
 point.  The flags are the decidable trigger predicates of the `_partial` theorem:
   `stale`  a function item is used whose token slot holds other bindings than at its creation (F16)
   `scope`  a variable reference reads a value different from its lexical binding (F05 / F05c)
   `arity`  a plain inline function is partially applied with a number of arguments ≠ its arity, or
            passed to for-each/filter/sort with an arity ≠ 1 (neither is checked by the code, F16e)
-  `focus`  `.` is evaluated inside a function body where the focus is absent (F16f)
   `misc`   `fn:apply` turned an `XPTY0004` raised *inside* the function into `FOAP0001`; or a partially
            applied `exists#1` / `empty#1` answered `true` (F16m)
 
@@ -78,14 +77,12 @@ structure Flags where
   stale : Bool := false
   scope : Bool := false
   arity : Bool := false
-  focus : Bool := false
   deriving DecidableEq, Repr, Inhabited
 
 def Flags.none : Flags := {}
 def Flags.or (a b : Flags) : Flags :=
-  { stale := a.stale || b.stale, scope := a.scope || b.scope, arity := a.arity || b.arity,
-    focus := a.focus || b.focus }
-def Flags.any (a : Flags) : Bool := a.stale || a.scope || a.arity || a.focus
+  { stale := a.stale || b.stale, scope := a.scope || b.scope, arity := a.arity || b.arity }
+def Flags.any (a : Flags) : Bool := a.stale || a.scope || a.arity
 
 /-- a function object: `tok = some i` when it is the token of function expression `i` itself;
 `env` = its `variables` attribute (`None` for a token that was never evaluated) -/
@@ -96,9 +93,8 @@ structure FObj where
   lex : Env
   fixed : Option (List (Option Seq))
   /-- `func.context = copy(context)` of a named function reference: the captured focus
-  (`context.item`, `context.position`, `context.size`); `flitem` ghost: the lexical context item -/
+  (`context.item`, `context.position`, `context.size`) -/
   fitem : Option Item := none
-  flitem : Option Item := none
   fpos : Nat := 0
   fsize : Nat := 0
   /-- `sequence_types` of a typed inline function (parameter types, result type) -/
@@ -139,7 +135,6 @@ def IM.single (s : Seq) : IM Nat := match s with
 structure ICtx where
   item : Option Item
   lex : Env
-  litem : Option Item
   /-- `context.position`, `context.size` -/
   pos : Nat := 1
   size : Nat := 1
@@ -187,7 +182,8 @@ def runBody (c : ICtx) (D : Env) (body : Expr) (binds : List (Nat × Seq)) (env 
   let D1 := match cfg.lexical, env with
     | true, some e => envUpdate e binds
     | _, _ => envUpdate D (binds ++ env.getD [])
-  let r ← ev body { item := c.item, lex := binds ++ lex, litem := none, pos := c.pos, size := c.size } D1
+  -- `context.item = ABSENT_FOCUS`: the focus is absent in the body (repair of F16f)
+  let r ← ev body { item := none, lex := binds ++ lex, pos := c.pos, size := c.size } D1
   -- with F05 the dict that was written is the caller's
   pure (r.1, if cfg.leak then r.2 else D)
 
@@ -201,7 +197,6 @@ def callFn (c : ICtx) (D : Env) (a : Nat) (args : List Seq) : IM (Seq × Env) :=
       let full := match o.fixed with | none => args | some pat => fill pat args
       if full.length = b.arity then do
         -- `context = copy(self.context or context)`: a reference evaluates in the context it captured
-        IM.flag { focus := b.focusDep && decide (o.fitem ≠ o.flitem) }
         let r ← IM.lift (b.apF (o.fitem, o.fpos, o.fsize) full)
         pure (r, D)
       else IM.throw .XPTY0004
@@ -261,7 +256,7 @@ def partialApply (c : ICtx) (D : Env) (a : Nat) (args : List (Option Expr)) : IM
     -- `tk.value = func.convert_argument(...)` for the fixed arguments of an inline function
     let pat' ← IM.lift (sigPat o.sig pat)
     let n ← IM.alloc { tok := none, code := o.code, env := vars.1, lex := vars.2, fixed := some pat',
-                       fitem := o.fitem, flitem := o.flitem, fpos := o.fpos, fsize := o.fsize, sig := o.sig }
+                       fitem := o.fitem, fpos := o.fpos, fsize := o.fsize, sig := o.sig }
     pure ([.fn n], r.2)
   else IM.throw .XPTY0004
 
@@ -364,7 +359,7 @@ def forLoop (c : ICtx) (x : Nat) (b : Expr) : Env → Seq → Seq → IM (Seq ×
 def mapLoop (c : ICtx) (b : Expr) (size : Nat) : Nat → Env → Seq → Seq → IM (Seq × Env)
   | _, D, acc, [] => pure (acc, D)
   | k, D, acc, i :: is => do
-    let r ← ev b { c with item := some i, litem := some i, pos := k, size := size } D
+    let r ← ev b { c with item := some i, pos := k, size := size } D
     mapLoop c b size (k + 1) r.2 (acc ++ r.1) is
 
 def step (e : Expr) (c : ICtx) (D : Env) : IM (Seq × Env) :=
@@ -389,18 +384,15 @@ def step (e : Expr) (c : ICtx) (D : Env) : IM (Seq × Env) :=
     | some v => pure (v, D)
     | none => IM.throw .XPST0008
   | .dot => do
-    IM.flag { focus := decide (c.item ≠ c.litem) }
     match c.item with
     | some i => pure ([i], D)
     | none => IM.throw .XPDY0002
   | .posE => do
     -- `position()`: context.position
-    IM.flag { focus := decide (c.item ≠ c.litem) }
     match c.item with
     | some _ => pure ([.int c.pos], D)
     | none => IM.throw .XPDY0002
   | .lastE => do
-    IM.flag { focus := decide (c.item ≠ c.litem) }
     match c.item with
     | some _ => pure ([.int c.size], D)
     | none => IM.throw .XPDY0002
@@ -440,7 +432,7 @@ def step (e : Expr) (c : ICtx) (D : Env) : IM (Seq × Env) :=
   | .named b => do
     -- a fresh token per evaluation, `func.context = copy(context)`
     let n ← IM.alloc { tok := none, code := .builtin b, env := none, lex := [], fixed := none,
-                       fitem := c.item, flitem := c.litem, fpos := c.pos, fsize := c.size }
+                       fitem := c.item, fpos := c.pos, fsize := c.size }
     pure ([.fn n], D)
   | .call f args => do
     let fv ← ev f c D
@@ -517,7 +509,7 @@ structure Outcome where
 
 /-- a whole program on the tree described by `cfg` -/
 def implEval (cfg : Cfg) (fuel : Nat) (p : Expr) : Outcome :=
-  let r := eval cfg fuel p { item := some (.int 1), lex := [], litem := some (.int 1) } [] { heap := [], slots := [] }
+  let r := eval cfg fuel p { item := some (.int 1), lex := [] } [] { heap := [], slots := [] }
   { result := r.2.map (·.1.1), flags := r.1 }
 
 end EPV.Clo
